@@ -16,7 +16,9 @@ import (
 	"unsafe"
 
 	"github.com/hyperjumptech/grule-rule-engine/ast"
+	"github.com/hyperjumptech/grule-rule-engine/builder"
 	"github.com/hyperjumptech/grule-rule-engine/engine"
+	"github.com/hyperjumptech/grule-rule-engine/pkg"
 
 	"verif/internal/ev"
 	"verif/internal/facts"
@@ -138,7 +140,9 @@ func (l *c09Listener) ExecuteRuleEntry(ctx context.Context, c uint64, e *ast.Rul
 }
 
 // c09Body: [NewKnowledgeBaseInstance; Execute(own facts)] of thread tid.
-func c09Body(lib *ast.KnowledgeLibrary, tid int, obs *c09Obs, yield func(string)) {
+// se != nil: the threads share ONE *GruleEngine value (the engine type documents no per-run state; its
+// configuration is read-only during a run), each run carrying its own listener through the context.
+func c09Body(lib *ast.KnowledgeLibrary, tid int, obs *c09Obs, yield func(string), se *hx.SharedEngine) {
 	defer func() {
 		if r := recover(); r != nil {
 			obs.Err = fmt.Sprintf("PANIC %v", r)
@@ -154,8 +158,15 @@ func c09Body(lib *ast.KnowledgeLibrary, tid int, obs *c09Obs, yield func(string)
 	f.I = int64(tid % 2)
 	dc := ast.NewDataContext()
 	dc.Add("F", f)
-	eng := &engine.GruleEngine{MaxCycle: 6, Listeners: []engine.GruleEngineListener{&c09Listener{obs: obs, y: yield}}}
-	if err := eng.Execute(dc, kb); err != nil {
+	if se != nil {
+		ctx, leave := se.Enter(context.Background(), &c09Listener{obs: obs, y: yield})
+		err = se.Eng.ExecuteWithContext(ctx, dc, kb)
+		leave()
+	} else {
+		eng := &engine.GruleEngine{MaxCycle: 6, Listeners: []engine.GruleEngineListener{&c09Listener{obs: obs, y: yield}}}
+		err = eng.Execute(dc, kb)
+	}
+	if err != nil {
 		obs.Err = firstLineOf(err.Error())
 	}
 	obs.Final = fmt.Sprintf("I=%d I2=%d S=%q heavy=%d", f.I, f.I2, f.S, f.H().HeavyCalls)
@@ -206,7 +217,7 @@ func C09Worker(args []string) {
 	want := make([]string, nthreads)
 	for t := 0; t < nthreads; t++ {
 		var o c09Obs
-		c09Body(lib, t, &o, func(string) {})
+		c09Body(lib, t, &o, func(string) {}, nil)
 		want[t] = o.String()
 	}
 	var cur *sched.Run
@@ -219,6 +230,7 @@ func C09Worker(args []string) {
 	var obs []c09Obs
 	mkBodies := func() []func(r *sched.Run) {
 		obs = make([]c09Obs, nthreads)
+		se := hx.NewSharedEngine(6, false) // one engine value for all threads of this execution
 		bodies := make([]func(r *sched.Run), nthreads)
 		for t := 0; t < nthreads; t++ {
 			t := t
@@ -228,7 +240,7 @@ func C09Worker(args []string) {
 					if !coarse || c09Coarse[l] {
 						r.Yield(l)
 					}
-				})
+				}, se)
 			}
 		}
 		return bodies
@@ -299,17 +311,21 @@ func C09Race(args []string) {
 			n := 4
 			obs := make([]c09Obs, n)
 			var wg sync.WaitGroup
+			var se *hx.SharedEngine
+			if it%2 == 1 {
+				se = hx.NewSharedEngine(6, false) // odd iterations: the goroutines share one engine value
+			}
 			for t := 0; t < n; t++ {
 				wg.Add(1)
 				go func(t int) {
 					defer wg.Done()
-					c09Body(lib, t, &obs[t], func(string) {})
+					c09Body(lib, t, &obs[t], func(string) {}, se)
 				}(t)
 			}
 			wg.Wait()
 			for t := 0; t < n; t++ {
 				var o c09Obs
-				c09Body(lib, t, &o, func(string) {})
+				c09Body(lib, t, &o, func(string) {}, nil)
 				if o.String() != obs[t].String() {
 					bad++
 					if bad < 4 {
@@ -387,7 +403,7 @@ func C09Corpus(args []string) {
 		omu.Unlock()
 	}
 	report := func(sig, what, id string) { emit(c09CorpusLine{Kind: "violation", Sig: sig, What: what, ID: id}) }
-	bud := NewBudget(50 * time.Second)
+	bud := NewBudget(150 * time.Second)
 	if tier == "thorough" {
 		bud = NewBudget(8 * time.Minute)
 	}
@@ -499,6 +515,46 @@ func C09Corpus(args []string) {
 		if strings.Join(trB.Events, " ") != strings.Join(bpTrace.Events, " ") {
 			report("C09:operation-on-instance-changes-other-instance", fmt.Sprintf("instance B after operations on A: %v, expected %v\n  grl: %s", trB.Events, bpTrace.Events, p.Text), id)
 		}
+		// the library evolves BETWEEN instantiations (instances were created above): a rule is removed from the
+		// library, later another one is built into it; every later NewKnowledgeBaseInstance succeeds and the
+		// instance behaves like the same rules built fresh; an instance obtained earlier is unaffected
+		extra := grl.R("zz_extra", grl.Sal(-1000), "F.U8 == 0", "F.U8 = 1")
+		rest := append([]*grl.Rule{}, p.Rules[1:]...)
+		for step, rules := range [][]*grl.Rule{rest, append(append([]*grl.Rule{}, rest...), extra)} {
+			what := "after a library-level RemoveRuleEntry that followed earlier instantiations"
+			if step == 0 {
+				b.Lib.RemoveRuleEntry(p.Rules[0].Name, hx.KBName, hx.KBVer)
+			} else {
+				what = "after a further rule was built into the library that had been instantiated before"
+				if err := builder.NewRuleBuilder(b.Lib).BuildRuleFromResource(hx.KBName, hx.KBVer, pkg.NewBytesResource([]byte(grl.PrintRules([]*grl.Rule{extra}, grl.Style{})))); err != nil {
+					report("C09:build-into-instantiated-library-fails", err.Error()+"\n  grl: "+p.Text, id)
+					break
+				}
+			}
+			wantEvents := "B1 ret:nil"
+			rp := hx.NewProgram(rules, grl.Style{})
+			if len(rules) > 0 {
+				rb, err := hx.Build(rp)
+				if err != nil {
+					break
+				}
+				wantEvents = strings.Join(hx.RunOn(rp, rb.Lib.GetKnowledgeBase(hx.KBName, hx.KBVer), mkWorld(), hx.RunOpts{MaxCycle: 6, NoSnapshots: true}, nil).Events, " ")
+			}
+			k, err := b.Instance()
+			if err != nil {
+				report("C09:instance-creation-fails:library-changed-between-instantiations", fmt.Sprintf("%v (%s)\n  grl: %s", err, what, p.Text), id)
+				break
+			}
+			if got := strings.Join(hx.RunOn(rp, k, mkWorld(), hx.RunOpts{MaxCycle: 6, NoSnapshots: true}, nil).Events, " "); got != wantEvents {
+				report("C09:instance-behaves-differently-from-blueprint:library-changed-between-instantiations", fmt.Sprintf("instance created %s: %s\n  the same rules built fresh: %s\n  grl: %s", what, got, wantEvents, p.Text), id)
+			}
+			mu.Lock()
+			nBehav++
+			mu.Unlock()
+		}
+		if got := strings.Join(hx.RunOn(p, insts[2], mkWorld(), hx.RunOpts{MaxCycle: 6, NoSnapshots: true}, nil).Events, " "); got != strings.Join(bpTrace.Events, " ") {
+			report("C09:library-change-affects-existing-instance", fmt.Sprintf("instance C (created before the library changed): %s, expected %v\n  grl: %s", got, bpTrace.Events, p.Text), id)
+		}
 		if pi%60 == 0 {
 			rep.sample(map[string]interface{}{"case": id, "grl": p.Text, "graph_sizes": []int{len(graphs[0]), len(graphs[1])}})
 		}
@@ -515,7 +571,7 @@ type c09FakeRep struct {
 // ---------- the check ----------
 
 func C09(rep *ev.Reporter, tier string) {
-	bud := NewBudget(55 * time.Second)
+	bud := NewBudget(150 * time.Second)
 	if tier == "thorough" {
 		bud = NewBudget(12 * time.Minute)
 	}
